@@ -534,6 +534,44 @@ def one_session(ctx, sf, spec, reqs, pending, kinds=("list", "seq", "cat", "rese
             ctx.fail("reset-not-fresh:run_progs", f"{backend}: run_progs after reset+run is {a['run_ids']}, fresh engine {b['run_ids']}", rp)
 
 
+OTHER = {"gaussian": "fock", "fock": "gaussian", "bosonic": "gaussian"}
+
+
+def cross_backend_check(ctx, sf, spec):
+    """the same Program objects run on an engine of one back end and then on an engine of another back end behave, on
+    the second, exactly like freshly built programs (nothing of the first run survives in programs or operations)"""
+    if unmeasured_read(spec) or not all(er.follows(spec)) or \
+            any(er.kind_of(o["cls"]) == "meas" and o.get("select") is None for sg in spec["segs"] for o in sg):
+        return
+    first, second = spec["backend"], OTHER[spec["backend"]]
+    rp = dict(kind="xback", spec=spec)
+    order = er.run_order(spec)
+
+    def run_on(backend, progs):
+        try:
+            res = sf.Engine(backend, backend_options=dict(OPTS[backend])).run([progs[i] for i in order], args=dict(spec["args"]),
+                                                                              compile_options=dict(warn_connected=False))
+            return None, er.state_data(backend, res.state)
+        except Exception as e:  # noqa: BLE001
+            return type(e).__name__, None
+    cache = {} if spec.get("share") else None
+    used = er.build_segments(sf, spec, cache)
+    snaps = [er.snapshot(p) for p in used]
+    run_on(first, used)
+    e1, s1 = run_on(second, used)
+    e2, s2 = run_on(second, er.build_segments(sf, spec, {} if spec.get("share") else None))
+    ctx.oracle_cases += 1
+    ctx.tally(f"xback:{first}->{second}:" + (e1 or "ok"))
+    if e1 != e2 or (e1 is None and not er.state_dist(s1, s2) < STATE_TOL):
+        ctx.fail(f"history-dependent-program:{first}->{second}", f"programs already run on a {first} engine " +
+                 (f"raise {e1}" if e1 else "give a state") + f" on a {second} engine, freshly built ones " +
+                 (f"raise {e2}" if e2 else f"give another state (distance {er.state_dist(s1, s2):.3g})" if e1 is None else "run"), rp)
+    for i, (a, p) in enumerate(zip(snaps, used)):
+        d = er.snap_diff(a, er.snapshot(p))
+        if d:
+            ctx.fail("program-mutated:" + ",".join(d) + ":two-engines", f"running on a {first} and a {second} engine changed {d} of program {i}", rp)
+
+
 def flush(ctx, reqs, pending):
     if not reqs:
         return
@@ -564,6 +602,27 @@ def reset_and_compile_checks(ctx, sf, spec):
             if c is not None and (c.reg_refs is not p.reg_refs or c.free_params is not p.free_params or c.circuit is p.circuit):
                 ctx.fail("compile-not-linked-copy", f"compile(compiler={comp}): result does not share RegRefs/free parameters "
                          "with, or shares the circuit list of, its source", rp)
+    # compiling is history independent: the same program compiled twice (with another compiler in between) and the
+    # compiled program compiled again give the same circuit; none of these calls changes any of the programs involved
+    def canon(pr):
+        return [(type(c.op).__name__, bool(getattr(c.op, "dagger", False)), tuple(r.ind for r in c.reg), repr(getattr(c.op, "select", None)),
+                 tuple(round(par_value(x, ENV_M, ENV_F), 10) if np.ndim(x) == 0 else repr(x) for x in c.op.p)) for c in pr.circuit]
+    for p in progs:
+        try:
+            c1 = p.compile(compiler=backend, warn_connected=False)
+            s1, k1 = er.snapshot(c1), canon(c1)
+            other = p.compile(compiler="gaussian" if backend != "gaussian" else "bosonic", warn_connected=False)
+            c2 = p.compile(compiler=backend, warn_connected=False)
+            c3 = c1.compile(compiler=backend, warn_connected=False)
+        except Exception:  # noqa: BLE001  (classes the other compiler does not know)
+            continue
+        ctx.oracle_cases += 1
+        if canon(c2) != k1 or canon(c3) != k1:
+            ctx.fail("compile-history-dependent", f"compile(compiler={backend}) gives another circuit the second time / on the "
+                     "compiled program", rp)
+        if er.snap_diff(s1, er.snapshot(c1)):
+            ctx.fail("compile-mutated:compiled-copy", f"a later compile changed {er.snap_diff(s1, er.snapshot(c1))} of an earlier "
+                     "compiled copy of the same program", rp)
     # reset clears measured values of all run programs and the run history
     eng = sf.Engine(backend, backend_options=dict(spec["opts"]))
     try:
@@ -864,15 +923,18 @@ def flush_heap_decompose(ctx, reqs, pending):
 # ------------------------------------------------------------------ daggered native application is the inverse
 
 def dagger_inverse_checks(ctx, sf):
+    """G followed by G.H (the SAME operation object and its .H, on modes (1, 0)) is the identity for every gate class a
+    back end applies natively or through its decomposition -- the rule "dagger = inverse", not "negate p[0]" """
     from strawberryfields import ops
-    for backend, classes in (("gaussian", ["Dgate", "Sgate", "Rgate", "BSgate"]),
-                             ("bosonic", ["Dgate", "Sgate", "Rgate", "BSgate"]),
-                             ("fock", ["Dgate", "Sgate", "Rgate", "BSgate", "MZgate", "S2gate", "Kgate", "Vgate", "CKgate"])):
+    dec = ["MZgate", "S2gate", "Xgate", "Zgate", "Pgate", "CXgate", "CZgate", "Fouriergate"]
+    for backend, classes in (("gaussian", ["Dgate", "Sgate", "Rgate", "BSgate", "sMZgate"] + dec),
+                             ("bosonic", ["Dgate", "Sgate", "Rgate", "BSgate"] + dec),
+                             ("fock", ["Dgate", "Sgate", "Rgate", "BSgate", "Kgate", "Vgate", "CKgate", "sMZgate"] + dec)):
         for cls in classes:
             two = cls in er.GATES2
             npar = {**er.GATES1, **er.GATES2}[cls]
-            pars = [0.3, 0.45][:npar] if cls in ("MZgate", "BSgate", "Rgate", "Kgate", "CKgate") else [0.1, 0.45][:npar]
-            opts = {"cutoff_dim": 9} if backend == "fock" else {}
+            pars = [0.3, 0.45][:npar] if cls in ("MZgate", "sMZgate", "BSgate", "Rgate", "Kgate", "CKgate") else [0.1, 0.45][:npar]
+            opts = {"cutoff_dim": 10} if backend == "fock" else {}
 
             def build(with_gate):
                 p = sf.Program(2)
@@ -884,14 +946,79 @@ def dagger_inverse_checks(ctx, sf):
                         g | ((q[1], q[0]) if two else q[1])
                         g.H | ((q[1], q[0]) if two else q[1])
                 return p
-            s0 = er.state_data(backend, sf.Engine(backend, backend_options=opts).run(build(False)).state)
-            s1 = er.state_data(backend, sf.Engine(backend, backend_options=opts).run(build(True)).state)
-            d = er.state_dist(s0, s1)
+            rp = dict(kind="dagger", backend=backend, cls=cls)
             ctx.oracle_cases += 1
             ctx.count("dagger-inverse", dict(backend=backend, cls=cls), True)
+            try:
+                s0 = er.state_data(backend, sf.Engine(backend, backend_options=opts).run(build(False)).state)
+                s1 = er.state_data(backend, sf.Engine(backend, backend_options=opts).run(build(True)).state)
+            except Exception as e:  # noqa: BLE001
+                ctx.fail(f"dagger-run-raised:{cls}:{backend}", f"{backend}: running {cls}; {cls}.H raised {type(e).__name__}: {e}", rp)
+                continue
+            d = er.state_dist(s0, s1)
             if not d < 1e-3:
-                ctx.fail(f"dagger-not-inverse:{cls}:{backend}", f"{backend}: {cls}(..) followed by {cls}(..).H changes the state by {d:.3g}",
-                         dict(kind="dagger", backend=backend, cls=cls))
+                ctx.fail(f"dagger-not-inverse:{cls}:{backend}", f"{backend}: {cls}(..) followed by {cls}(..).H changes the state by {d:.3g}", rp)
+
+
+# ------------------------------------------------------------------ time-domain programs through the engine
+
+def tdm_checks(ctx, sf, rng):
+    """TDM path of the engine (`get_tdm_options`, unroll by the engine, roll-back): the user's TDMProgram is the same
+    before and after `run` (rolled/unrolled state, circuits, shot count, RegRefs, operation objects and their
+    parameters) and a second run -- same engine after reset, or a new engine -- gives the same samples and state"""
+    from lib import tdm_c13 as t13
+    for case in range(ctx.n(4, 16)):
+        N = rng.choice([[1], [2], [1, 2]])
+        C = sum(N)
+        T = rng.randint(2, 4)
+        sel = rng.choice([0.25, -0.5, 0.125])
+        ops_ = [dict(cls="Sgate", regs=[C - 1], pars=["p0", 0.0]),
+                dict(cls="Rgate", regs=[C - 1], pars=["p1"], d=rng.random() < 0.5)]
+        if C >= 2:
+            ops_.append(dict(cls="BSgate", regs=[C - 2, C - 1], pars=[0.375, "p1"], d=rng.random() < 0.5))
+        ops_.append(dict(cls="MeasureHomodyne", regs=[0], pars=[0.0 if rng.random() < 0.5 else "p1"], s=sel))
+        starts = t13.band_starts(N)
+        for b in starts[1:]:
+            ops_.append(dict(cls="MeasureHomodyne", regs=[b], pars=[0.25], s=sel))
+        spec = dict(N=N, shift="default", T=T, ops=ops_,
+                    params=[[round(0.1 * (i + 1), 3) for i in range(T)], [round(0.2 * (i + 1) - 0.3, 3) for i in range(T)]])
+        pre = rng.choice(["rolled", "rolled", "unrolled", "space"])
+        kw = rng.choice([{}, {}, dict(shots=2)]) if pre == "rolled" else {}
+        if kw:      # several shots exclude post-selection: outcomes are random, only shapes are compared
+            for o in spec["ops"]:
+                o["s"] = None
+        rp = dict(kind="tdm", spec=spec, pre=pre, kw=kw)
+        ctx.count("tdm", dict(spec=spec, pre=pre, kw=kw), True)
+        ctx.oracle_cases += 1
+        try:
+            prog = t13.build(sf, spec, share=rng.random() < 0.5)
+            if pre == "unrolled":
+                prog.unroll(shots=1)
+            elif pre == "space":
+                prog.space_unroll(shots=1)
+            before, deep = t13.snapshot(prog), er.snapshot(prog)
+            before["locked"] = True      # running locks the program (documented)
+            eng = sf.Engine("gaussian")
+            r1 = eng.run(prog, **kw)
+            after, deep2 = t13.snapshot(prog), er.snapshot(prog)
+            d = [k for k in before if before[k] != after[k]] + er.snap_diff(deep, deep2)
+            if d:
+                ctx.fail("tdm-program-mutated:" + ",".join(sorted(set(d))), f"running a TDMProgram given {pre} ({kw}) changed {sorted(set(d))}", rp)
+                continue
+            eng.reset()
+            r2 = eng.run(prog, **kw)
+            r3 = sf.Engine("gaussian").run(prog, **kw)
+            s1 = np.asarray(r1.samples, dtype=float)
+            for name, r in (("after reset", r2), ("on a new engine", r3)):
+                sx = np.asarray(r.samples, dtype=float)
+                if sx.shape != s1.shape or (not kw and not np.allclose(sx, s1, atol=1e-9)):
+                    ctx.fail("tdm-rerun-differs", f"second run of the same TDMProgram {name}: samples {sx.tolist()} vs {s1.tolist()}", rp)
+                elif not kw and er.state_dist(er.state_data("gaussian", r.state), er.state_data("gaussian", r1.state)) > STATE_TOL:
+                    ctx.fail("tdm-rerun-differs:state", f"second run of the same TDMProgram {name} ends in another state", rp)
+            if t13.snapshot(prog) != after:
+                ctx.fail("tdm-program-mutated:second-run", "the second and third run changed the TDMProgram", rp)
+        except Exception as e:  # noqa: BLE001
+            ctx.fail(f"tdm-run-raised:{type(e).__name__}", f"TDMProgram given {pre} ({kw}): {type(e).__name__}: {e}", rp)
 
 
 # ------------------------------------------------------------------ corpus, run, replay
@@ -918,6 +1045,7 @@ def run(ctx, sf):
     flush_heap_decompose(ctx, hr, hp)
     dagger_inverse_checks(ctx, sf)
     rng = ctx.rng
+    tdm_checks(ctx, sf, rng)
     n = ctx.n(24, 400)
     for k in range(n):
         for backend in ("gaussian", "fock", "bosonic"):
@@ -931,6 +1059,8 @@ def run(ctx, sf):
             if k % 6 == 1 and backend != "bosonic":
                 spec = gen_history(rng, backend)
             one_session(ctx, sf, spec, reqs, pending)
+            if k % 3 == 1:
+                cross_backend_check(ctx, sf, spec)
             if k % 2 == 0:
                 reset_and_compile_checks(ctx, sf, spec)
                 compile_corr(ctx, sf, spec, creqs, cpending)
@@ -948,7 +1078,12 @@ def replay(ctx, rp):
     import strawberryfields as sf
     n0 = len(ctx.failures)
     ctx.proof_ok = False
-    if rp["kind"] == "session":
+    if rp["kind"] == "tdm":
+        import random
+        tdm_checks(ctx, sf, random.Random(0))
+    elif rp["kind"] == "xback":
+        cross_backend_check(ctx, sf, rp["spec"])
+    elif rp["kind"] == "session":
         one_session(ctx, sf, rp["spec"], [], [])
         reset_and_compile_checks(ctx, sf, rp["spec"])
     elif rp["kind"] == "heap-apply":
